@@ -50,6 +50,10 @@ EXC_CODE = {"IndexError": 0, "ValueError": 1, "NameError": 2}
 #   [8,x,y,i] x.append(y[i])   [9,x,y,i] x.remove(y[i])      (the argument is an element of a list - of x itself when y == x)
 #   [10,[x..],[rhs..]] x1, .., xn = r1, .., rn   with rhs = [0,y] (the list y) | [1,[items]] (a literal)
 #   [11,x,y] x = ident(y)   with  def ident(xs): return xs
+#   [12,x,off] x.append(c + off)   [13,x,off] x.remove(c + off)      (c = p.read() at the top of every pass: a run-time scalar)
+#   [14,x,y,sg,k] mon.write(x[len(y) + k]) (sg = 1)  /  mon.write(x[k - len(y)]) (sg = 0)     (len() is folded by the parser)
+#   programs with "t": True use the vocabulary of coq/Device/DListLen.v (0 1 2(x = x) 3 4 5 6 8 9 10(names only) 12 13 14) and
+#   go to the model in wire mode 2 (parse-time list copies, folded len())
 #   a program may carry "lines": {"head","setup","body"} - the literal script lines (witnesses of findings whose
 #   statements are outside the wire vocabulary); such programs never go to the model
 # --------------------------------------------------------------------------
@@ -95,6 +99,17 @@ def stmt_lines(s, elem=None):
         return [", ".join(f"l{x}" for x in s[1]) + " = " + ", ".join(rhs)]
     if t == 11:
         return [f"l{s[1]} = ident(l{s[2]})"]
+    if t in (12, 13):
+        off = s[2]
+        arg = "c" if off == 0 else (f"c + {off}" if off > 0 else f"c - {-off}")
+        return [f"l{s[1]}.{'append' if t == 12 else 'remove'}({arg})"]
+    if t == 14:
+        x, y, sg, k = s[1:]
+        if sg:
+            idx = f"len(l{y})" + ("" if k == 0 else (f" + {k}" if k > 0 else f" - {-k}"))
+        else:
+            idx = f"-len(l{y})" if k == 0 else f"{par(k)} - len(l{y})"
+        return [f"mon.write(l{x}[{idx}])"]
     raise ValueError(s)
 
 
@@ -103,13 +118,18 @@ def stmt_names(s):
     t = s[0]
     if t == 10:
         return list(s[1]) + [r[1] for r in s[2] if r[0] == 0]
-    if t in (2, 8, 9, 11):
+    if t in (2, 8, 9, 11, 14):
         return [s[1], s[2]]
     return [s[1]]
 
 
 def gated(prog) -> bool:
     return any(t >= 0 for t in prog.get("gates") or [])
+
+
+def uses_c(prog) -> bool:
+    """the script reads the run-time scalar c = p.read() at the top of every pass"""
+    return gated(prog) or any(s[0] in (12, 13) for s in prog["body"])
 
 
 def lines_of(prog):
@@ -119,10 +139,10 @@ def lines_of(prog):
         return list(ln["head"]), list(ln["setup"]), list(ln["body"])
     stmts = prog["setup"] + prog["body"]
     head = ["from Reduino.Communication import SerialMonitor"]
-    if gated(prog):
+    if uses_c(prog):
         head += ["from Reduino.Sensors import Potentiometer"]
     head += ["mon = SerialMonitor(9600)"]
-    if gated(prog):
+    if uses_c(prog):
         head += ['p = Potentiometer("A0")']
     if any(s[0] == 6 for s in stmts):
         head += ["def f(xs, k):", "    return xs[k]"]
@@ -135,9 +155,9 @@ def lines_of(prog):
     elem = prog.get("elem")
     setup = [ln for s in prog["setup"] for ln in stmt_lines(s, elem)]
     body = ['mon.write("-")']
-    if gated(prog):
+    if uses_c(prog):
         body.append("c = p.read()")
-        for s, t in zip(prog["body"], prog["gates"]):
+        for s, t in zip(prog["body"], prog.get("gates") or [-1] * len(prog["body"])):
             if t < 0:
                 body += stmt_lines(s, elem)
             else:
@@ -153,10 +173,12 @@ def script_of(prog) -> str:
 
 
 def mock_input(prog) -> str:
-    return ("ar 14 " + " ".join(str(v) for v in prog["gvals"]) + "\n") if gated(prog) else ""
+    return ("ar 14 " + " ".join(str(v) for v in prog["gvals"]) + "\n") if uses_c(prog) else ""
 
 
 def wire_of(prog):
+    if prog.get("t"):
+        return [2, prog["setup"], prog["body"], list(prog.get("gates") or [-1] * len(prog["body"])), list(prog["gvals"])]
     if gated(prog):
         return [1, prog["setup"], prog["body"], prog["gates"], prog["gvals"]]
     return [0, prog["setup"], prog["body"], prog["N"]]
@@ -171,7 +193,7 @@ def rename(stmts, off):
             s[2] = [[0, r[1] + off] if r[0] == 0 else [1, list(r[1])] for r in s[2]]
         else:
             s[1] += off
-            if s[0] in (2, 8, 9, 11):
+            if s[0] in (2, 8, 9, 11, 14):
                 s[2] += off
         out.append(s)
     return out
@@ -197,6 +219,8 @@ def combine(parts, N):
     out = {"setup": setup, "body": body, "N": N, "gates": gates, "gvals": gvals or [0] * N}
     if parts and parts[0].get("elem"):
         out["elem"] = parts[0]["elem"]
+    if parts and all(p.get("t") for p in parts):
+        out["t"] = True
     return out
 
 
@@ -205,6 +229,8 @@ def guard_py(prog) -> bool:
     (cross-checked against the model's guard bit on every case)"""
     if prog.get("lines"):
         return False
+    if prog.get("t"):
+        return track_py(prog)[0]
     decl = []
 
     def use_ok(s):
@@ -235,6 +261,93 @@ def guard_py(prog) -> bool:
     return all(use_ok(s) for s in prog["body"])
 
 
+def track_py(prog):
+    """mirror of coq/Device/DListLen.v (track1, len_ok) for the oracle's guard, cross-checked against the model on every
+    case: the parser's parse-time copy of every list.  -> (len_ok, [folded len() of every len() read of the body, -1 = run-time])"""
+    t, decl, ok, folded = {}, [], True, []
+
+    def cur(x):
+        v = t.get(x)
+        return v if isinstance(v, list) else None
+
+    def arg_val(s):
+        k = s[0]
+        if k in (3, 4):
+            return s[2]
+        if k in (12, 13):
+            return None
+        cy = cur(s[2])
+        if cy is None:
+            return None
+        i, n = s[3], len(cy)
+        return cy[i] if -n <= i < n else None
+
+    def use_ok(s):
+        k = s[0]
+        if k == 2:
+            return s[1] == s[2] and s[1] in decl
+        if k in (3, 4, 5, 6, 12, 13):
+            return s[1] in decl
+        if k in (8, 9, 14):
+            return s[1] in decl and s[2] in decl
+        if k == 10:
+            xs, rs = s[1], s[2]
+            if any(r[0] != 0 for r in rs):
+                return False
+            ys = [r[1] for r in rs]
+            return (len(xs) == len(ys) and len(set(xs)) == len(xs) and len(set(ys)) == len(ys)
+                    and all(y in xs for y in ys) and all(x in decl for x in xs))
+        return False
+
+    def step(s, g, in_setup):
+        nonlocal ok
+        k, is_g = s[0], g >= 0
+        if k in (0, 1):
+            if not in_setup or s[1] in decl or is_g:
+                ok = False
+            t[s[1]] = list(s[2]) if k == 0 else None
+            if s[1] not in decl:
+                decl.append(s[1])
+            return
+        if not use_ok(s) or (is_g and (in_setup or k not in (5, 6, 14))):
+            ok = False
+        x = s[1]
+        c = cur(x) if k != 10 else None
+        if k in (3, 8, 12):
+            v = arg_val(s)
+            if c is not None:
+                c.append(v)
+        elif k in (4, 9, 13):
+            v = arg_val(s)
+            if c is not None:
+                if v is not None:
+                    if v in c:
+                        c.remove(v)
+                    else:
+                        ok = False          # the list shrinks (when Python does not raise), the copy does not
+                elif c:
+                    c.pop(0)
+        elif k == 2 and not is_g:
+            t[x] = None
+        elif k == 10 and not is_g:
+            for z in s[1]:
+                t[z] = None
+        elif k == 14 and not in_setup:
+            cy = cur(s[2])
+            folded.append(len(cy) if cy is not None else -1)
+
+    for s in prog["setup"]:
+        step(s, -1, True)
+    at_loop = {x: len(v) for x, v in t.items() if isinstance(v, list)}
+    gates = prog.get("gates") or [-1] * len(prog["body"])
+    for s, g in zip(prog["body"], gates):
+        step(s, g, False)
+    for x, n in at_loop.items():
+        if cur(x) is None or len(cur(x)) != n:
+            ok = False
+    return ok, folded
+
+
 # --------------------------------------------------------------------------
 # a tiny straight-line simulation used ONLY to steer the generators towards valid programs
 # (the verdicts come from the model, CPython and the firmware)
@@ -258,9 +371,16 @@ def sim(prog):
                 tot += len(v)
         return tot
 
-    def ex(s):
+    def ex(s, c=0):
         t = s[0]
-        if t == 0:
+        if t == 12:
+            env[s[1]].append(c + s[2])
+        elif t == 13:
+            env[s[1]].remove(c + s[2])
+        elif t == 14:
+            n = len(env[s[2]])
+            env[s[1]][(n + s[4]) if s[3] else (s[4] - n)]
+        elif t == 0:
             env[s[1]] = list(s[2])
         elif t == 1:
             v = comp_vals(s[2])
@@ -299,7 +419,7 @@ def sim(prog):
         for k in range(prog["N"]):
             for s, t in zip(prog["body"], gates):
                 if t < gv[k]:
-                    ex(s)
+                    ex(s, gv[k])
             lives.append(live())
     except (IndexError, ValueError, KeyError):
         return None
@@ -316,13 +436,17 @@ def gen_decl(rng, x):
     return [1, x, [a, b, st, rng.choice([1, 2, -1, 0]), rng.choice([0, 1, -3])]]
 
 
-def cur_lists(stmts):
+def cur_lists(stmts, c=0):
     """contents after running stmts once (generator steering only)"""
     env = {}
     for s in stmts:
         t = s[0]
         try:
-            if t == 0:
+            if t == 12:
+                env[s[1]].append(c + s[2])
+            elif t == 13:
+                env[s[1]].remove(c + s[2])
+            elif t == 0:
                 env[s[1]] = list(s[2])
             elif t == 1:
                 env[s[1]] = comp_vals(s[2]) or []
@@ -490,6 +614,93 @@ def gen_str_part(rng, N):
             return part
     return {"setup": [[0, 0, [1, 2]]], "body": [[8, 0, 0, 0], [9, 0, 0, 0]], "N": N, "kind": "guard-strings", "gates": [-1, -1],
             "gvals": None, "elem": "str"}
+
+
+
+def gen_len_part(rng, N, pattern, flavour="in"):
+    """programs over the vocabulary of coq/Device/DListLen.v: indices built from len() (folded by the parser from its
+    parse-time copy of the list), append / remove of the RUN-TIME scalar c + off (c = p.read() of the pass), next to the
+    literal / element arguments, `x = x`, permutations, comprehension lists (no copy: run-time len).
+    flavour "in": aimed at the guard len_ok (balanced pairs, gates only on reads); "out": one of the stale-copy classes
+    (an append / remove / re-binding under a run-time condition, an unbalanced body, a constant remove after a run-time remove)"""
+    for _ in range(80):
+        cs = sorted(set(pattern))
+        names = list(range(rng.choice([1, 2, 2, 3])))
+        off = rng.choice([0, 0, 1, -1, 2])
+        l0 = [c + off for c in cs] + [rng.choice(VALS) for _ in range(rng.choice([0, 0, 1, 2]))]
+        rng.shuffle(l0)
+        setup = [[0, 0, l0]] + [gen_decl(rng, x) for x in names[1:]]
+        for _ in range(rng.randint(0, 3)):
+            setup.append(gen_use(rng, setup, names, allow=(3, 8, 8, 4, 5, 10, 2, 3, 8)))
+        body, gates, fresh = [], [], 200
+        for _ in range(rng.randint(1, 3)):
+            r = rng.random()
+            x = rng.choice(names)
+            cur = cur_lists(setup + body, pattern[0]).get(x, [])
+            if r < 0.45:
+                pair = [[13, 0, off], [12, 0, off]]       # rotation by the run-time value (l0 holds every c + off)
+                if rng.random() < 0.25:
+                    pair.reverse()
+            elif r < 0.6 and cur:
+                n = len(cur)
+                pair = [[8, x, x, gen_index(rng, n)], [9, x, x, rng.choice([0, -1, -(n + 1), n])]]
+            elif r < 0.8 and cur:
+                e = rng.choice(cur)
+                pair = [[4, x, e], [3, x, e]]
+            else:
+                fresh += 1
+                pair = [[3, x, fresh], [4, x, fresh]]
+            pos = rng.randint(0, len(body))
+            body[pos:pos] = pair
+            gates[pos:pos] = [-1, -1]
+        if rng.random() < 0.25 and len(names) >= 2:
+            pos = rng.randint(0, len(body))
+            body.insert(pos, gen_perm(rng, names))        # ungated re-binding: the targets lose their copy
+            gates.insert(pos, -1)
+        for _ in range(rng.randint(2, 4)):
+            pos = rng.randint(0, len(body))
+            env = cur_lists(setup + body[:pos], pattern[0])
+            x = rng.choice(names)
+            y = x if rng.random() < 0.7 else rng.choice(names)
+            nx, ny = len(env.get(x, [])), len(env.get(y, []))
+            if nx == 0:
+                continue
+            sg = rng.random() < 0.7
+            target = rng.choice([nx - 1, nx - 1, 0, -1, -nx, rng.randrange(-nx, nx)])
+            k = target - ny if sg else target + ny
+            if not sg and k < 0:
+                continue
+            body.insert(pos, [14, x, y, 1 if sg else 0, k])
+            gates.insert(pos, rng.choice([-1, -1, -1, 0, 1, 2]))
+        if rng.random() < 0.4:
+            pos = rng.randint(0, len(body))
+            body.insert(pos, gen_use(rng, setup + body[:pos], names, allow=(5, 6, 5)))
+            gates.insert(pos, rng.choice([-1, -1, 1]))
+        if flavour == "out":
+            shape = rng.choice(["gate", "gate", "drop", "rebind", "pop"])
+            idx = [i for i, s in enumerate(body) if s[0] in (3, 4, 8, 9, 12, 13)]
+            if shape == "gate" and idx:
+                gates[rng.choice(idx)] = rng.choice([0, 1, 2])
+            elif shape == "drop" and idx:
+                i = rng.choice(idx)
+                del body[i], gates[i]
+            elif shape == "rebind" and len(names) >= 2:
+                pos = rng.randint(0, len(body))
+                body.insert(pos, gen_perm(rng, names))
+                gates.insert(pos, rng.choice([0, 1]))
+            else:
+                i = next((i for i, s in enumerate(body) if s[0] == 13), None)
+                if i is not None:
+                    e = l0[0]
+                    body[i + 1:i + 1] = [[4, 0, e], [14, 0, 0, 1, -1], [3, 0, e]]
+                    gates[i + 1:i + 1] = [-1, -1, -1]
+        if not any(s[0] == 14 for s in body):
+            continue
+        part = {"setup": setup, "body": body, "N": N, "kind": "len-" + flavour, "gates": gates, "gvals": list(pattern), "t": True}
+        if flavour == "out" or sim(part) is not None:
+            return part
+    return {"setup": [[0, 0, [c for c in sorted(set(pattern))]]], "body": [[13, 0, 0], [12, 0, 0], [14, 0, 0, 1, -1]], "N": N,
+            "kind": "len-fallback", "gates": [-1, -1, -1], "gvals": list(pattern), "t": True}
 
 
 def gen_index_error_part(rng, N):
@@ -686,7 +897,7 @@ def run_all(progs):
     for p in progs:
         head, setup, body = lines_of(p)
         jobs.append({"head": [ln for ln in head if "Potentiometer" not in ln], "setup": setup, "body": body, "N": p["N"],
-                     "gvals": p["gvals"] if gated(p) else None})
+                     "gvals": p["gvals"] if uses_c(p) else None})
     pys = []
     for i in range(0, len(jobs), 400):
         pys += C.run_impl("c09_impl.py", {"jobs": jobs[i:i + 400]})
@@ -738,6 +949,8 @@ def public(prog):
     out = {"setup": prog["setup"], "body": prog["body"], "N": prog["N"], "gates": prog.get("gates"), "gvals": prog.get("gvals")}
     if prog.get("elem"):
         out["elem"] = prog["elem"]
+    if prog.get("t"):
+        out["t"] = True
     return out
 
 
@@ -764,7 +977,7 @@ def load_findings(ctx):
     p = C.VERIF / "known_findings.d" / "C09.json"
     if p.exists():
         for f in json.loads(p.read_text()):
-            items.setdefault(f["id"], f)
+            items[f["id"]] = f          # the work package's own file is the newer one
     return [f for f in items.values() if f.get("kind") != "fixed"]
 
 
@@ -833,6 +1046,10 @@ def run(ctx: C.Ctx):
         parts.append(gen_outside_part(rng, N))
     for i in range(150 if thorough else 20):
         parts.append(gen_str_part(rng, N))
+    for i in range(600 if thorough else 70):
+        parts.append(gen_len_part(rng, N, GPATTERNS[i % len(GPATTERNS)], "in"))
+    for i in range(240 if thorough else 24):
+        parts.append(gen_len_part(rng, N, GPATTERNS[i % len(GPATTERNS)], "out"))
     ex_parts = gen_exhaustive_parts(3 if thorough else 2, N)
     parts += ex_parts
     # ---- classify every part with the model: safe-expected parts are batched, the others run alone
@@ -848,7 +1065,7 @@ def run(ctx: C.Ctx):
         else:
             expect_safe = p["kind"].startswith("guard")
         (safe_parts if expect_safe else single).append(p)
-    cap = 800 if thorough else 34
+    cap = 900 if thorough else 44
     if len(single) > cap:
         # keep every kind represented: shuffle deterministically, keep the first `cap`
         rng.shuffle(single)
@@ -874,7 +1091,7 @@ def run(ctx: C.Ctx):
                         (in_exc, "batch-in-guard-python-raises"), (out_g, "batch-outside-guard")):
         # one potentiometer per sketch: parts of a batch share the per-pass run-time values
         def pkey(p):
-            return (tuple(p["gvals"]) if p.get("gvals") else None, p.get("elem"))
+            return (tuple(p["gvals"]) if p.get("gvals") else None, p.get("elem"), bool(p.get("t")))
         pats = []
         for p in group0:
             if pkey(p) not in pats:
@@ -884,7 +1101,7 @@ def run(ctx: C.Ctx):
             for i in range(0, len(group), BATCH):
                 chunk = group[i:i + BATCH]
                 cases.append({"prog": combine(chunk, N), "parts": chunk,
-                              "family": fam + ("-gated" if k[0] else "") + ("-strings" if k[1] else "")})
+                              "family": fam + ("-gated" if k[0] else "") + ("-strings" if k[1] else "") + ("-len" if k[2] else "")})
     for p in single:
         cases.append({"prog": combine([p], N), "parts": [p], "family": "single-" + p["kind"].split("-")[0]})
 
